@@ -1608,6 +1608,7 @@ def run(ctx):
         # concrete codecs (Model/Codecs.v): nothing recorded per case
         cd.sweeps(ctx, encode=False)
         cd.dammit_cases(ctx)
+        cd.shape_cases(ctx)
     ctx.extra_cov["concrete_codecs"] = ("ascii, iso-8859-1, windows-1252, utf-8, utf-16-le/be, utf-32-le/be decoders defined in "
                                         "Coq and compared with bytes.decode (strict / replace) on all 256 single bytes, on "
                                         "adversarial and random byte strings, and end to end through UnicodeDammit / "
